@@ -183,11 +183,11 @@ theorem send_leaves (c : C) (p : Pkt) {e : Nat × Pkt} (h1 : e ∈ c.s.store) (h
     (p.kind = .publish ∧ p.ver ≠ 4 ∧ errs (send c p).ev ≠ errs c.ev ∧ p.pid = some e.1) ∨
     (p.kind = .connack ∧ p.rc = some 0 ∧ p.sp = false ∧ (send c p).s.store = []) := by
   by_cases hv : c.s.ver ≠ p.ver
-  · have e0 : send c p = c.err eVersionMismatch := by simp [send, hv]
-    rw [e0] at h2; exact absurd h1 h2
+  · have e0 : send c p = refuseSend c eVersionMismatch p := by simp [send, hv]
+    rw [e0, refuseSend_store] at h2; exact absurd h1 h2
   · by_cases hr : ¬ roleMaySend c.cfg.role p = true
-    · have e0 : send c p = c.err eNotAllowed := by simp [send, hv, hr]
-      rw [e0] at h2; exact absurd h1 h2
+    · have e0 : send c p = refuseSend c eNotAllowed p := by simp [send, hv, hr]
+      rw [e0, refuseSend_store] at h2; exact absurd h1 h2
     · have hr' : roleMaySend c.cfg.role p = true := by simpa using hr
       have e0 : send c p = processSend c p := by simp [send, hv, hr']
       rw [e0] at h2 ⊢
